@@ -84,7 +84,7 @@ theorem batch_efficiency (names : List Nat) (model : Inst V → Dict K) (loss : 
     apply List.map_congr_left
     intro f hf
     rw [batchSage_eq, Dict.getD_tabulate names _ hf]
-  rw [h1, sum_map_div]
+  rw [h1, batch_sum_map_div]
   congr 1
   refine (sum_sum_comm names (batchChains names model loss data perms imps) (fun c f => c.getD f 0)).trans ?_
   simp only [batchChains, List.map_map, Function.comp_def]
